@@ -13,6 +13,7 @@
 (***************************************************************************)
 EXTENDS Integers, Sequences, FiniteSets, TLC, Json, IOUtils
 
+Sel == INSTANCE Selectors
 Model == JsonDeserialize(IOEnv.MODEL_FILE)
 Version == Model.spec_version
 Types == Model.types
@@ -42,7 +43,7 @@ FracOK(d, n) == IF d.precision = "any" THEN TRUE
 RECURSIVE NodeFaults(_, _), ObjFaults(_, _), ItemsFaults(_, _, _), MembersFaults(_, _)
 NodeFaults(d, x) ==
   IF x.k = "null" THEN {"null"}
-  ELSE IF d.lenient THEN {}
+  ELSE IF "lenient" \in DOMAIN d /\ d.lenient THEN {}
   ELSE IF "fixed" \in DOMAIN d THEN (IF (x.k = "str" /\ x.s = d.fixed) \/ (x.k = "bool") \/ (x.k = "int") THEN {} ELSE {"fixed_value"})
   ELSE IF d.kind \in {"string", "pattern", "selector", "objectreference"} THEN (IF x.k = "str" THEN {} ELSE {"not_a_string"})
   ELSE IF d.kind = "type" THEN (IF x.k = "str" THEN {} ELSE {"not_a_string"})
@@ -77,7 +78,8 @@ NodeFaults(d, x) ==
         ELSE UNION { LET e == x.props[i] IN
                      IF ("extensions:" \o e.name) \notin DOMAIN Types THEN {"unregistered_extension"}
                      ELSE IF e.node.k # "obj" THEN {"not_an_object"} ELSE ObjFaults("extensions:" \o e.name, e.node.props) : i \in DOMAIN x.props })
-  ELSE IF d.kind \in {"observable", "stixobject"} THEN MembersFaults(d, x)
+  ELSE IF d.kind = "observable" THEN MembersFaults(d, x)
+  ELSE IF d.kind = "stixobject" THEN MembersFaults(d, [k |-> "list", items |-> <<x>>])      \* one member of a bundle's "objects" list
   ELSE {}          \* marking definitions' content and other kinds: no obligation
 ItemsFaults(d, items, i) == IF i > Len(items) THEN {} ELSE NodeFaults(d, items[i]) \cup ItemsFaults(d, items, i + 1)
 \* containers of whole objects: the 2.0 observed-data "objects" dictionary, bundle members
@@ -101,9 +103,26 @@ ConstraintFaults(key, props) ==
           ELSE IF c.k = "at_least_one" THEN (IF ToSet(c.of) \cap Names(props) = {} THEN {"at_least_one_of:" \o c.of[1]} ELSE {})
           ELSE IF c.k = "requires" THEN (IF Has(props, c.a) /\ ~Has(props, c.b) THEN {c.a \o ":requires:" \o c.b} ELSE {})
           ELSE IF c.k = "iff_present" THEN (IF Has(props, c.a) # Has(props, c.b) THEN {c.a \o ":only_together_with:" \o c.b} ELSE {})
+          ELSE IF c.k = "if_true_forbids" THEN (IF Has(props, c.a) /\ Get(props, c.a).k = "bool" /\ Get(props, c.a).v /\ Has(props, c.b) THEN {c.a \o ":true_forbids:" \o c.b} ELSE {})
+          ELSE IF c.k = "if_false_forbids" THEN (IF Has(props, c.a) /\ Get(props, c.a).k = "bool" /\ ~Get(props, c.a).v /\ Has(props, c.b) THEN {c.a \o ":false_forbids:" \o c.b} ELSE {})
           ELSE IF c.k = "any_property" THEN (IF Names(props) \ ToSet(c.except) = {} THEN {"at_least_one_property"} ELSE {})
           ELSE IF c.k = "if_true" THEN (IF Has(props, c.a) /\ Get(props, c.a).k = "bool" /\ Get(props, c.a).v /\ ~Has(props, c.b) THEN {c.a \o ":true_requires:" \o c.b} ELSE {})
           ELSE {} : i \in DOMAIN Types[key].constraints }
+
+\* granular markings: every selector must address something in the object (Selectors.tla), whatever value is stored there
+RECURSIVE ToTree(_)
+ToTree(x) == IF x.k = "obj" THEN [k |-> "obj", keys |-> [i \in DOMAIN x.props |-> x.props[i].name], vals |-> [i \in DOMAIN x.props |-> ToTree(x.props[i].node)]]
+             ELSE IF x.k = "list" THEN [k |-> "list", items |-> [i \in DOMAIN x.items |-> ToTree(x.items[i])]]
+             ELSE [k |-> "leaf", v |-> "x"]
+SelectorFaults(props) ==
+  IF ~Has(props, "granular_markings") \/ Get(props, "granular_markings").k # "list" THEN {}
+  ELSE LET tree == ToTree([k |-> "obj", props |-> props])
+           gms == Get(props, "granular_markings").items IN
+       UNION { IF gms[i].k # "obj" \/ ~Has(gms[i].props, "selectors") \/ Get(gms[i].props, "selectors").k # "list" THEN {}
+               ELSE LET sels == Get(gms[i].props, "selectors").items IN
+                    UNION { IF sels[j].k # "str" THEN {} ELSE IF sels[j].sel = <<>> THEN {"granular_markings:malformed_selector"}
+                            ELSE IF ~Sel!Addresses(tree, sels[j].sel) THEN {"granular_markings:selector_addresses_nothing"} ELSE {} : j \in DOMAIN sels }
+               : i \in DOMAIN gms }
 
 ObjFaults(key, props) ==
   LET ps == Types[key].properties IN
@@ -111,6 +130,7 @@ ObjFaults(key, props) ==
   \cup { props[i].name \o ":unknown_property" : i \in { j \in DOMAIN props : ~Known(key, props[j].name) } }
   \cup UNION { { props[i].name \o ":" \o f : f \in NodeFaults(Desc(key, props[i].name), props[i].node) } : i \in { j \in DOMAIN props : Known(key, props[j].name) } }
   \cup ConstraintFaults(key, props)
+  \cup SelectorFaults(props)
   \cup (IF \E i, j \in DOMAIN props : i # j /\ props[i].name = props[j].name THEN {"duplicate_member"} ELSE {})
 
 Faults(doc) == IF doc.key \notin DOMAIN Types THEN {"unknown_type"} ELSE ObjFaults(doc.key, doc.props)
